@@ -567,7 +567,11 @@ func (p *Policy) handleArchiving(ctx context.Context, storage logical.Storage) e
 	if !keysContainsMinimum {
 		// Need to move keys *from* archive
 		for i := p.MinDecryptionVersion; i <= p.LatestVersion; i++ {
-			p.Keys[strconv.Itoa(i)] = archive.Keys[i-p.MinAvailableVersion]
+			idx := i - p.MinAvailableVersion
+			if idx < 0 || idx >= len(archive.Keys) {
+				return fmt.Errorf("archive does not hold key version %d", i)
+			}
+			p.Keys[strconv.Itoa(i)] = archive.Keys[idx]
 		}
 
 		return nil
